@@ -5,7 +5,8 @@
    number of '(' and ')', what it starts with, and (for error replies) the length of the message
    text between "(error " and the final ")".                                                   *)
 EXTENDS Naturals, Sequences, TLC
-CONSTANT MaxLen
+CONSTANTS MaxLen,
+          Repaired      \* TRUE: the code after the two C15 repairs (EOF check in the balancing loop, message slicing); FALSE: as found
 Line(o, c, k, n) == [open |-> o, close |-> c, kind |-> k, len |-> n]
 Replies ==                                       \* what the solver may put on its stdout before EOF
   {  << Line(0, 0, "sat", 0) >>,                              \* healthy
@@ -25,15 +26,19 @@ ReadLine == IF pos <= Len(reply) THEN reply[pos] ELSE Line(0, 0, "eof", 0)      
 Merge(r, ln) == [open |-> r.open + ln.open, close |-> r.close + ln.close,
                  kind |-> IF r.kind = "none" THEN ln.kind ELSE r.kind, len |-> r.len + ln.len]
 First == /\ pc = "first" /\ resp' = Merge(resp, ReadLine) /\ pos' = pos + 1 /\ pc' = "balance" /\ UNCHANGED <<reply, outcome>>
-\* while count_parens(response) > 0 { response.push(' '); read_line(..) }   -- no EOF check
+\* while count_parens(response) > 0 { response.push(' '); read_line(..) }
+\* as found: no EOF check (the loop spins at end of stream); repaired: end of stream => Err(SolverDead)
 Balance == /\ pc = "balance"
            /\ IF resp.open > resp.close
-              THEN resp' = Merge(resp, ReadLine) /\ pos' = (IF pos <= Len(reply) THEN pos + 1 ELSE pos) /\ pc' = "balance"
-              ELSE resp' = resp /\ pos' = pos /\ pc' = "classify"
-           /\ UNCHANGED <<reply, outcome>>
+              THEN IF Repaired /\ pos > Len(reply)
+                   THEN resp' = resp /\ pos' = pos /\ pc' = "done" /\ outcome' = "Err(solver dead)"
+                   ELSE resp' = Merge(resp, ReadLine) /\ pos' = (IF pos <= Len(reply) THEN pos + 1 ELSE pos) /\ pc' = "balance" /\ outcome' = outcome
+              ELSE resp' = resp /\ pos' = pos /\ pc' = "classify" /\ outcome' = outcome
+           /\ UNCHANGED reply
 \* trimmed = "(error " ++ msg ++ ")": len = 7 + n + 1; slice [7 .. len - 7 - 1) = [7 .. n + 1)
 Classify == /\ pc = "classify" /\ pc' = "done"
-            /\ outcome' = CASE resp.kind = "error" -> (IF 7 > resp.len + 1 THEN "PANIC slice start > end"
+            /\ outcome' = CASE resp.kind = "error" /\ Repaired -> "Err(message intact)"
+                            [] resp.kind = "error" -> (IF 7 > resp.len + 1 THEN "PANIC slice start > end"
                                                        ELSE IF resp.len + 1 - 7 = resp.len THEN "Err(message intact)"
                                                        ELSE "Err(message mangled)")
                             [] resp.kind = "sat" -> "Ok(Sat)"
